@@ -247,6 +247,21 @@ fn gen_td(em: &mut Emitter) {
         td_case(em, "exhaustive-alphabet", "", s)
     }
 
+    // A2. LONG rejected strings with one multi-byte character at every byte offset of a band: error paths echo the input
+    // into their message, so anything that cuts or indexes the message by bytes (a length cap, a column marker) must land
+    // on a char boundary — totality for inputs well beyond the lengths of the grammar-based strings
+    for mb in ['é', '日', '😀'] {
+        let (lo, hi) = if thorough { (0usize, 90usize) } else { (25, 60) };
+        for n in lo..=hi {
+            // the out-of-range arm (the number does not fit), then a long tail
+            td_case(em, "long-multibyte", " arm=overflow", &format!("9223372036854775807w{}{}3h", "1d".repeat(n), mb));
+            // the unknown-unit arm
+            td_case(em, "long-multibyte", " arm=unit", &format!("{}{}q", "1d".repeat(n), mb));
+            // an odd byte offset
+            td_case(em, "long-multibyte", " arm=digits", &format!("7{}{}1d", "12".repeat(n), mb));
+        }
+    }
+
     // B. exhaustive well-formed term sequences
     let signs3 = ["", "+", "-"];
     let mut one: Vec<String> = vec![];
@@ -569,11 +584,18 @@ fn gen_dt(em: &mut Emitter) {
             em.case("exact", &tags, &desc, || format!("dtp {} {}", u, coq_str(s)), || cs);
         }
     }
-    // arbitrary strings: totality only (the model is not consulted)
-    let n_a = if thorough { 6000 } else { 600 };
+    // arbitrary strings: totality only (the model is not consulted); every fifth one is LONG (60..200 bytes) with a
+    // multi-byte character somewhere past the first 50 bytes (see A2 of the duration cases)
+    let n_a = if thorough { 6000 } else { 900 };
     for i in 0..n_a {
         let len = rng.below(24);
-        let s: String = (0..len).map(|_| if rng.chance(1, 2) { *rng.pick(&DT_MUT_ALPHA) } else { *rng.pick(&MUT_ALPHA) }).collect();
+        let s: String = if i % 5 == 4 {
+            let mb = *rng.pick(&['é', '日', '😀', '\u{a0}']);
+            let k = 40 + (i / 5) % 90;
+            if i % 2 == 0 { format!("{}{}-01-01 00:00:00", "7".repeat(k), mb) } else { format!("2020-01-01 {}{}{}", "0".repeat(k), mb, ":00") }
+        } else {
+            (0..len).map(|_| if rng.chance(1, 2) { *rng.pick(&DT_MUT_ALPHA) } else { *rng.pick(&MUT_ALPHA) }).collect()
+        };
         let u = i % 4;
         let c = if i % 2 == 0 { dt_parse_cell(u, &s, None) } else { dt_parse_cell(u, &s, Some(RULES[rng.below(11)])) };
         let nt = if s.is_empty() { " nt=0" } else { "" };
